@@ -40,7 +40,7 @@ def alphabet(tier):
              op("append_all", "/a", b"yz"), op("append_all", "/a/b", b"\xff"), op("write_lines", "/b", ["l1", "l2"]),
              op("append_line", "/b", "t"), op("append_lines", "/a", ["u", ""])]
     muts += [op("symlink", "/b", "/a"), op("symlink", "/a/b", "../b"), op("symlink", "/a/a", "/a"), op("symlink", "/b", "/nope"),
-             op("symlink", "/a", "b")]
+             op("symlink", "/a", "b"), op("symlink", "/a/b", "/ab"), op("symlink", "/a/a", "../ab")]
     muts += [op("move_p", "/a", "/b"), op("move_p", "/b", "/a"), op("move_p", "/a", "/a/b"), op("move_p", "/a/b", "/b"),
              op("move_p", "/a", "/c/d"), op("move_p", "/b", "/a/a"), op("move_p", "/a", "/a"), op("move_p", "/a", "/ab"), op("move_p", "/ab", "/a"), op("copy", "/a", "/ab")]
     muts += [op("set_cwd", "/a"), op("set_cwd", "/"), op("set_cwd", "/a/b"), op("remove_all", "/"), op("mkfile", "b"), op("mkdir_p", "../b/./a"),
@@ -296,7 +296,24 @@ def c08_streams(tier, rng, ctx):
                     hs_sorted.append(l)
                 else:
                     hs_unsorted.append(l)
+    # a traversal root whose path is a string prefix of a sibling's path (/a and /a1, /t/data and /t/data2), with links from
+    # inside the root to that sibling: "inside the root" is a matter of components, not of string prefixes
+    pre_trees = [
+        [op("mkdir_p", "/a"), op("mkdir_p", "/a1/d"), op("mkfile", "/a1/f"), op("mkfile", "/a/x"), op("symlink", "/a/l", "/a1"), op("symlink", "/a/m", "../a1/f")],
+        [op("mkdir_p", "/t/data"), op("mkdir_p", "/t/data2"), op("mkfile", "/t/data2/f"), op("symlink", "/t/data/link", "/t/data2"), op("mkfile", "/t/data/z")],
+        [op("mkdir_p", "/a/b"), op("mkdir_p", "/ab/c"), op("symlink", "/a/b/l", "../../ab"), op("symlink", "/ab/c/back", "/a")],
+    ]
+    for ops in pre_trees:
+        for wo in WALK_OPTS:
+            for r in ["/a", "/t/data", "/", "/a/b"]:
+                l = "\t".join(["hist", "m", envspec(MEM_ENV)] + ops + ["entries:%s:%s" % (hx(r), wo)])
+                hs_all.append(l)
+                (hs_sorted if ("sort" in wo or "df" in wo or "ff" in wo) else hs_unsorted).append(l)
     lst = []
+    for ops in pre_trees:
+        for k in ["paths", "dirs", "files", "all_paths", "all_dirs", "all_files"]:
+            for r in ["/", "/a", "/t/data", "/a/b"]:
+                lst.append("\t".join(["hist", "m", envspec(MEM_ENV)] + ops + [op(k, r)]))
     for t in range(ntrees):
         ops = random_tree_ops(rng, 7)
         for k in ["paths", "dirs", "files", "all_paths", "all_dirs", "all_files"]:
@@ -368,11 +385,13 @@ import frames
 SETUP = [op("mkdir_p", "/a"), op("mkdir_p", "/b"), op("mkdir_p", "/a/b"), op("mkdir_p", "/a/a"), op("mkfile", "/a"), op("mkfile", "/b"),
          op("write_all", "/a/b", b"xy"), op("write_all", "/b/a", "é\n".encode()), op("write_all", "/a/a", b""),
          op("symlink", "/b", "/a"), op("symlink", "/a/a", "/b"), op("symlink", "/a/b", "../b"), op("symlink", "/b/a", "/nope"),
+         # a link to a sibling whose name string-extends its own directory's name (/a ... /ab)
+         op("symlink", "/a/b", "../ab"), op("symlink", "/a/a", "/ab"), op("symlink", "/a", "ab"),
          op("mkdir_m", "/a", 0o700), op("set_cwd", "/a"), op("mkdir_p", "/ab")]
 PATHS2 = ["/a", "/b", "/a/b", "/a/a", "/b/a", "/c", "/c/d", "/", "/ab"]
 
 
-def frame_streams(tier, rng, ctx, finals, checks, tag, depth_q=3, depth_t=4, maxs_q=500, maxs_t=5000, extra_random=None):
+def frame_streams(tier, rng, ctx, finals, checks, tag, depth_q=3, depth_t=4, maxs_q=500, maxs_t=5000, extra_random=None, knowns=None):
     depth = depth_q if tier == "quick" else depth_t
     maxstates = maxs_q if tier == "quick" else maxs_t
     hs, info = bfs_histories(ctx, tier, depth, maxstates, muts=SETUP, finals=finals, mode="m2", tag=tag)
@@ -388,7 +407,7 @@ def frame_streams(tier, rng, ctx, finals, checks, tag, depth_q=3, depth_t=4, max
                   rule="model-guided BFS over setup calls (%s, depth %d), then every final call of the property's alphabet in every reached state; "
                        "results and full pre/post state vs the mirror" % (info, depth))]
     for cname, c in checks:
-        sts.append(Stream(tag + "-" + cname, "pycheck", hs, impl_env=env, pycheck=c,
+        sts.append(Stream(tag + "-" + cname, "pycheck", hs, impl_env=env, pycheck=c, known=(knowns or {}).get(cname),
                           rule="the statement's clause '%s' evaluated on the implementation's own pre/post state snapshots" % cname))
     return sts
 
@@ -403,7 +422,8 @@ def c09_streams(tier, rng, ctx):
         for o in ["all=448", "cdirs=448", "cfiles=256", "follow=1", "follow=1,all=493"]:
             finals.append("copy_b:%s:%s:%s" % (hx(a), hx(b), o))
     finals += [op("move_p", "a", "../b"), op("copy", "./b", "/c//d/"), op("move_p", "/é", "/a"), op("copy", "/a", "/é")]
-    return frame_streams(tier, rng, ctx, finals, [("failed-call-frame", frames.failed_call_frame), ("copy-laws", frames.copy_laws), ("move-laws", frames.move_laws)], "c09")
+    return frame_streams(tier, rng, ctx, finals, [("failed-call-frame", frames.failed_call_frame), ("copy-laws", frames.copy_laws), ("move-laws", frames.move_laws),
+                                                       ("links-consistent", frames.links_consistent)], "c09")
 
 
 PROPS["C09"] = {
@@ -424,9 +444,14 @@ def c06_streams(tier, rng, ctx):
             finals.append(op("write_all", p, d))
             finals.append(op("append_all", p, d))
         finals += [op("read_all", p), op("read_lines", p), op("write_lines", p, ["l1", "é", "x y"]), op("write_lines", p, []), op("write_lines", p, [""]),
-                   op("append_lines", p, ["u", "v"]), op("append_line", p, "w"), op("append_line", p, "")]
+                   op("append_lines", p, ["u", "v"]), op("append_line", p, "w"), op("append_line", p, ""),
+                   # lists mixing empty and non-empty lines, a lone empty line, carriage returns
+                   op("append_lines", p, ["a", "", "b"]), op("append_lines", p, ["", "x"]), op("append_lines", p, ["x", ""]), op("append_lines", p, [""]),
+                   op("append_lines", p, []), op("write_lines", p, ["a", "", "b"]), op("write_lines", p, ["", ""]), op("write_lines", p, ["a\r", "b"]),
+                   op("append_line", p, "c\r")]
     finals += [op("copy", "/a/b", "/c"), op("move_p", "/a/b", "/c"), op("copy", "/b/a", "/a/b")]
-    sts = frame_streams(tier, rng, ctx, finals, [("content-laws", frames.content_laws)], "c06", depth_q=2, maxs_q=300)
+    sts = frame_streams(tier, rng, ctx, finals, [("content-laws", frames.content_laws)], "c06", depth_q=2, maxs_q=300,
+                        knowns={"content-laws": lambda l, io, mo: "KF-C06-nothing-to-write" if frames.lines_nothing_class(l) else None})
     # interleavings of writes / appends / copies / moves over three files, then reads of all three
     fs3 = ["/f1", "/f2", "/d/f3"]
     acts = []
